@@ -24,6 +24,13 @@ pub struct MemCase {
     /// `Extend` where the structure has it)
     #[serde(default)]
     pub chunk: usize,
+    /// a read (`touch`) after every this many elements (0: only at the measurement points)
+    #[serde(default)]
+    pub touch_every: usize,
+    /// 0: elements drawn independently; otherwise the stream repeats a pattern of this length in
+    /// which some positions carry recurring elements and the others never-seen-before ones
+    #[serde(default)]
+    pub period: usize,
 }
 
 pub struct S6;
@@ -103,7 +110,19 @@ impl Scenario for S6 {
         let alphabet = *g.pick(&[1u64, 10, 1000, 1_000_000, u64::MAX]);
         let clear_at = if g.chance(1, 3) { g.range(1, n as u64) as usize } else { 0 };
         let chunk = if g.chance(1, 3) { *g.pick(&[1000usize, 10_000, 1_000_000]) } else { 0 };
-        MemCase { kind, hasher: SimHasher::new(mode, g.u64()), rng_seed: g.u64(), stream_seed: g.u64(), alphabet, n, clear_at, chunk }
+        let touch_every = if chunk == 0 && g.chance(1, 3) { *g.pick(&[1usize, 1, 2, 3, 7]) } else { 0 };
+        let mut alphabet = alphabet;
+        let period = if g.chance(1, 3) {
+            alphabet = u64::MAX;
+            match &kind {
+                // periods that divide the window width, and a few that do not
+                LKind::Lossy { width } => *g.pick(&[*width, *width, (*width / 2).max(1), (*width / 5).max(1), 10, 7, 2 * *width]),
+                _ => *g.pick(&[1usize, 2, 7, 10, 100, 1000]),
+            }
+        } else {
+            0
+        };
+        MemCase { kind, hasher: SimHasher::new(mode, g.u64()), rng_seed: g.u64(), stream_seed: g.u64(), alphabet, n, clear_at, chunk, touch_every, period }
     }
 
     fn execute(case: &MemCase, prop: &'static str) -> Outcome {
@@ -135,6 +154,24 @@ impl Scenario for S6 {
             let mut pending: Vec<(u64, u64)> = Vec::new();
             let mut failed = 0u64;
             let mut since_clear = 0usize;
+            // periodic streams: which positions of the period carry a recurring element (and which one)
+            let pattern: Vec<Option<u64>> = {
+                let mut pg = Sm::new(crate::rng::mix2(case.stream_seed, 0x9e7));
+                let mut p: Vec<Option<u64>> = (0..case.period).map(|_| if pg.chance(1, 3) { Some(pg.below(3)) } else { None }).collect();
+                if case.period >= 2 && pg.chance(2, 3) {
+                    // the same recurring element in the middle and at the end of every period
+                    let r = pg.below(3);
+                    p[case.period - 1] = Some(r);
+                    p[case.period / 2 - if case.period > 2 { pg.usize(case.period / 2) } else { 0 }] = Some(r);
+                }
+                p
+            };
+            if case.period > 0 {
+                stats.probe("periodic_stream");
+            }
+            if case.touch_every > 0 {
+                stats.probe("read_between_inserts");
+            }
             for i in 0..case.n {
                 step = i + 1;
                 if case.clear_at == i && i > 0 {
@@ -145,8 +182,15 @@ impl Scenario for S6 {
                         return;
                     }
                 }
-                let a = if case.alphabet == u64::MAX { g.u64() } else { g.below(case.alphabet) };
+                let mut a = if case.alphabet == u64::MAX { g.u64() } else { g.below(case.alphabet) };
                 let b = g.below(64);
+                if case.period > 0 {
+                    // position in the stream since the last clear(): windows restart there too
+                    a = match pattern[since_clear % case.period] {
+                        Some(r) => r,
+                        None => 1000 + i as u64,
+                    };
+                }
                 if case.chunk > 0 {
                     // hand the elements over in chunks that end at the measurement points
                     pending.push((a, b));
@@ -164,6 +208,9 @@ impl Scenario for S6 {
                 let (res, ok) = if case.chunk > 0 { (0, true) } else { alloc::tracked(|| s.apply(a, b)) };
                 if case.chunk == 0 {
                     since_clear += 1;
+                    if case.touch_every > 0 && since_clear % case.touch_every == 0 {
+                        alloc::tracked(|| s.touch());
+                    }
                 }
                 if !ok && res == 2 {
                     failed += 1;
@@ -235,6 +282,16 @@ impl Scenario for S6 {
             c.clear_at = 0;
             out.push(c);
         }
+        if case.touch_every != 0 {
+            let mut c = case.clone();
+            c.touch_every = 0;
+            out.push(c);
+        }
+        if case.period != 0 {
+            let mut c = case.clone();
+            c.period = 0;
+            out.push(c);
+        }
         // smaller tables of the same shape
         match &case.kind {
             LKind::Filter(FKind::Cuckoo { bucketsize, n_buckets, l_fp }) if *n_buckets > 2 => {
@@ -253,6 +310,6 @@ impl Scenario for S6 {
     }
 
     fn describe(case: &MemCase) -> Value {
-        json!({"kind": case.kind, "hasher": case.hasher, "n": case.n, "alphabet": case.alphabet, "clear_at": case.clear_at})
+        json!({"kind": case.kind, "hasher": case.hasher, "n": case.n, "alphabet": case.alphabet, "clear_at": case.clear_at, "chunk": case.chunk, "read_every": case.touch_every, "period": case.period})
     }
 }
